@@ -47,6 +47,11 @@ func decisionView(e *testEnv, v *respView) string {
 	return fmt.Sprintf("%d|%s|%s|%s|%s", v.Status, loc, strings.Join(cks, ","), up, body)
 }
 
+func mustReq(e *testEnv, cookie string) *http.Request {
+	r, _ := e.buildRequest(reqSpec{Target: "/", Cookie: cookie})
+	return r
+}
+
 func hasAnySessionCookie(b *browser, name string) bool {
 	for n := range b.jar {
 		if isSessionCookieNameH(name, n) {
@@ -422,6 +427,34 @@ func init() {
 							}
 						}
 					}
+					// a sign-out (other tab) that lands between a stale request's first load and its reload under the
+					// refresh lock: the in-flight request must not bring the session back
+					if redis && path == "" && dom == nil {
+						sess := e.sessionFor(u, 2*time.Hour)
+						sess.RefreshToken = fmt.Sprintf("rt-so-%d", time.Now().UnixNano())
+						e.registerRT(sess.RefreshToken, u)
+						ck := e.issueSessionCookie(sess)
+						plan := &faultPlan{hooks: map[string]func(){"load#2": func() {
+							e.proxy.sessionStore.(*recStore).inner.Clear(&respRecorder{h: http.Header{}}, mustReq(e, ck))
+						}}}
+						v, real := e.serveCase(reqSpec{Target: "/app/x", Cookie: ck}, plan, "signout:during-refresh")
+						if v != nil {
+							nb := newBrowser()
+							nb.jarFromHeader(ck)
+							if v.raw != nil {
+								nb.apply(v.raw)
+							}
+							r2 := e.do(reqSpec{Target: "/app/replay", Cookie: ck})
+							r3 := e.do(reqSpec{Target: "/app/replay2", Cookie: nb.cookieHeader()})
+							c.casen("c11|signout-during-refresh", real)
+							c.count("signout:during-refresh")
+							if len(r2.Hits) > 0 || len(r3.Hits) > 0 {
+								c.violation("C11", "a session signed out while a concurrent request was refreshing it is authenticated again afterwards", map[string]interface{}{
+									"response_of_inflight_request": real, "replay_old_cookie_served": len(r2.Hits) > 0, "replay_new_jar_served": len(r3.Hits) > 0})
+							}
+						}
+						e.mr.FlushAll()
+					}
 					// a sign-out that cannot remove the stored session is an error, not the redirect
 					if redis {
 						b := newBrowser()
@@ -436,7 +469,7 @@ func init() {
 				}
 			}
 		}
-		c.close([]string{"serve:signout", "signout:replay", "signout:del-fault", "signout:parts-1", "signout:refresh-at-signout"})
+		c.close([]string{"serve:signout", "signout:replay", "signout:del-fault", "signout:parts-1", "signout:refresh-at-signout", "signout:during-refresh"})
 	})
 
 	registerSuite("cookieattrs", func(c *suiteCtx) {
